@@ -1,11 +1,14 @@
 ---------------------------- MODULE ParamsModel ----------------------------
 (* Exhaustive small-scope model for Params.tla: a three-level parameter structure   *)
-(*     top {a, e (enumeration), ch -> child {b, g -> grand {c}; extra key xb}}       *)
+(*     top {aa, e (enumeration), ch -> child {b, g -> grand {cc}; extra key xb}}     *)
 (* whose import / export / check lists are varied at one nesting level at a time    *)
 (* over ALL sub-lists (a dropped import, a dropped export, a missing or a foreign   *)
-(* check_params name, a child that is not imported / exported), crossed with ALL    *)
+(* check_params name, a child that is not imported / exported; plus check_params    *)
+(* looking keys up by prefix instead of exactly), crossed with ALL                  *)
 (* property trees over the known keys (values 1, 2, Bad on the enumeration) and an  *)
-(* optional unknown key at each nesting level.  Import, Check and Export are the    *)
+(* optional unknown key at each nesting level, with and without all NEAR MISSES of  *)
+(* the names (proper prefixes "a", "c", "x" and one-character extensions).          *)
+(* Import, Check and Export are the                                                 *)
 (* actions; the invariants say                                                      *)
 (*   Sound     a schema with SchemaOK satisfies every behavioural predicate on      *)
 (*             every tree (TakesEffect, RoundTrip, UnknownReported, NoSpurious,     *)
@@ -21,9 +24,9 @@ CONSTANTS MutLevels,     \* nesting levels (0, 1, 2) whose lists are varied
 VARIABLES S, t, pc, obj, rep, out, threw
 vars == <<S, t, pc, obj, rep, out, threw>>
 
-G0 == [vf |-> {"c"}, ef |-> {}, xk |-> {}, cf |-> <<>>]
+G0 == [vf |-> {"cc"}, ef |-> {}, xk |-> {}, cf |-> <<>>]
 C0 == [vf |-> {"b"}, ef |-> {}, xk |-> {"xb"}, cf |-> ("g" :> G0)]
-T0 == [vf |-> {"a", "e"}, ef |-> {"e"}, xk |-> {}, cf |-> ("ch" :> C0)]
+T0 == [vf |-> {"aa", "e"}, ef |-> {"e"}, xk |-> {}, cf |-> ("ch" :> C0)]
 Base == Ideal(T0)
 
 Foreign == {Unk(p) : p \in Paths(Base)}
@@ -32,18 +35,21 @@ WithLists(X, iv, ev, ic, ec, ck) ==
     [X EXCEPT !.impv = iv, !.expv = ev, !.impc = ic, !.expc = ec, !.chk = ck]
 
 Variants0 == {WithLists(Base, iv, ev, ic, ec, {"e"} \cup ck) :
-                 iv \in SUBSET {"a", "e"}, ev \in SUBSET {"a", "e"},
-                 ic \in SUBSET {"ch"}, ec \in SUBSET {"ch"}, ck \in SUBSET {"a", "ch", Unk(<<>>)}}
+                 iv \in SUBSET {"aa", "e"}, ev \in SUBSET {"aa", "e"},
+                 ic \in SUBSET {"ch"}, ec \in SUBSET {"ch"}, ck \in SUBSET {"aa", "ch", Unk(<<>>)}}
 Variants1 == {[Base EXCEPT !.cf["ch"] = WithLists(@, iv, ev, ic, ec, ck)] :
                  iv \in SUBSET {"b"}, ev \in SUBSET {"b"},
                  ic \in SUBSET {"g"}, ec \in SUBSET {"g"}, ck \in SUBSET {"b", "g", "xb", Unk(<<"ch">>)}}
 Variants2 == {[Base EXCEPT !.cf["ch"].cf["g"] = WithLists(@, iv, ev, {}, {}, ck)] :
-                 iv \in SUBSET {"c"}, ev \in SUBSET {"c"}, ck \in SUBSET {"c", Unk(<<"ch", "g">>)}}
-Variants == (IF 0 \in MutLevels THEN Variants0 ELSE {}) \cup
+                 iv \in SUBSET {"cc"}, ev \in SUBSET {"cc"}, ck \in SUBSET {"cc", Unk(<<"ch", "g">>)}}
+\* check_params with a prefix lookup instead of the exact one, at one level
+VariantsLk == {[Base EXCEPT !.lk = "prefix"], [Base EXCEPT !.cf["ch"].lk = "prefix"],
+               [Base EXCEPT !.cf["ch"].cf["g"].lk = "prefix"]}
+Variants == VariantsLk \cup (IF 0 \in MutLevels THEN Variants0 ELSE {}) \cup
             (IF 1 \in MutLevels THEN Variants1 ELSE {}) \cup
             (IF 2 \in MutLevels THEN Variants2 ELSE {}) \cup {Base}
 
-AllTrees == Trees(T0, <<>>, Vals)
+AllTrees == Trees(T0, <<>>, Vals, FALSE) \cup Trees(T0, <<>>, Vals, TRUE)
 
 Init == /\ S \in Variants /\ t \in AllTrees
         /\ pc = "tree" /\ obj = <<>> /\ rep = {} /\ out = <<>> /\ threw = FALSE
@@ -65,6 +71,11 @@ Sound == (pc \in {"exported", "threw"} /\ SchemaOK(S, Foreign)) => AllOK(S, t, o
 \* evaluated once per schema (in the state with the empty tree)
 Complete == (pc = "tree" /\ t = EmptyTree /\ ~SchemaOK(S, Foreign)) =>
                 \E q \in Probes(Base, 0) : ~RunOK(S, q)
+
+\* a correct schema rejects every near miss (proper prefix / extension) of its names
+Rejects == (pc = "tree" /\ t = EmptyTree /\ SchemaOK(S, Foreign)) => UnknownKeysRejected(S)
+\* ... and the prefix lookup does not (the model is not vacuous)
+PrefixLookupAccepts == (pc = "tree" /\ t = EmptyTree /\ S \in VariantsLk) => ~UnknownKeysRejected(S)
 
 \* the unchanged lists are a fixed point: export(import(t)) restricted to t = t
 BaseRoundTrip == (pc = "exported" /\ S = Base) => RoundTrip(Base, t, out) /\ ExportShapeOK(Base, out)
